@@ -42,7 +42,7 @@ Definition env_register (e : senv) (sid : N) : senv :=
   | Some (k, w) =>
       let stores := match NM.find sid (se_stores e) with
                     | Some _ => se_stores e
-                    | None => NM.add sid (ms_new (if se_ideal e then KBTree else k) w) (se_stores e)
+                    | None => NM.add sid (ms_new (if se_ideal e then KBTree else k) w (match k with KNull => true | _ => false end)) (se_stores e)
                     end in
       let table := if existsb (N.eqb sid) (se_table e) then se_table e else se_table e ++ [sid] in
       {| se_stores := stores; se_table := table; se_cx := se_cx e; se_ideal := se_ideal e |}
@@ -119,7 +119,11 @@ Definition env_sop (e : senv) (av : aview) (hs : pvec entity) (so : sop) : senv 
   | SMask sid => with_store sid (fun ms => (e, WIdx (NS.elements (ms_mask ms))))
   | SSlice sid =>
       with_store sid (fun ms =>
-        let '(v, c1) := u_slice (ms_raw ms) (NS.elements (ms_mask ms)) (se_cx e) in (env_cx e c1, WSlice v))
+        match ms_wrap ms with
+        | WPlain =>
+            let '(v, c1) := u_slice (ms_raw ms) (NS.elements (ms_mask ms)) (se_cx e) in (env_cx e c1, WSlice v)
+        | _ => (e, WSlice SliceNone)       (* the wrappers do not implement SliceAccess *)
+        end)
   | SClear sid =>
       with_store sid (fun ms => let '(ms1, c1) := m_clear ms (se_cx e) in (env_put e sid ms1 c1, WUnit))
   | SDrain sid =>
